@@ -33,6 +33,17 @@ def workload(seed, big):
         (pk, "select b, count(*) from t group by b order by b"),
         (pk, "delete from t where a >= 1000 and a < 1300"),
     ]
+    # a table of 40 chunks (one INSERT each): faults behind more queued chunks than the channel holds (16)
+    many = ["create table m(a int, b int)", "create table s(a int, b int)", "create table t(a int)"] + \
+           [f"insert into m values ({i}, {i % 3})" for i in range(40)] + \
+           ["insert into s values " + ", ".join(f"({i}, {i * 2})" for i in range(0, 40))]
+    stmts += [
+        (many, "select a + 1 from m"),
+        (many, "select m.a, s.b from s join m on s.a = m.a"),
+        (many, "select m.a, s.b from m join s on s.a = m.a"),
+        (many, "select count(*) from m join s on m.a < s.a"),
+        (many, "insert into s select a, b from m where b < 2"),
+    ]
     if big:
         stmts += [(base, "select a from t where exists (select 1 from s where s.a = t.b)"),
                   (base, "select c, min(a), count(distinct b) from t group by c having count(*) > 3"),
@@ -48,25 +59,35 @@ def check_c15(args):
     big = tier == "thorough"
     # ---- M1: the pipeline protocol never reports success after a fault (every position and kind)
     mc_states = 0
+    from durable import write_cfg
+
+    def pipeline(fop, fat, kind, dev):
+        cfg = write_cfg(f"Pipeline-{fop}-{fat}-{kind}-{len(dev)}",
+                        "SPECIFICATION Spec\nCONSTANTS\n  N = 3\n  Chunks = 4\n  Cap = 2\n"
+                        f"  FaultOp = {fop}\n  FaultAt = {fat}\n  FaultKind = \"{kind}\"\n  Dev = {dev}\n"
+                        "INVARIANT OkIsComplete\nINVARIANT Decided\nCHECK_DEADLOCK FALSE\n")
+        return tlc(os.path.join(SPEC, "Pipeline.tla"), cfg, workers=1, timeout=300)
+
     for fop in (1, 2, 3):
-        for fat in (1, 2, 3):
+        for fat in (1, 2, 3, 4):
             for kind in ("error", "panic"):
-                from durable import write_cfg
-                cfg = write_cfg(f"Pipeline-{fop}-{fat}-{kind}",
-                                "SPECIFICATION Spec\nCONSTANTS\n  N = 3\n  Chunks = 3\n  Cap = 2\n"
-                                f"  FaultOp = {fop}\n  FaultAt = {fat}\n  FaultKind = \"{kind}\"\n  Dev = {{}}\n"
-                                "INVARIANT OkIsComplete\nCHECK_DEADLOCK FALSE\n")
-                r = tlc(os.path.join(SPEC, "Pipeline.tla"), cfg, workers=1, timeout=300)
+                r = pipeline(fop, fat, kind, "{}")
                 if not r["ok"]:
                     log(r["out"][-2000:])
                     raise ToolError("Pipeline.tla: model check failed")
                 mc_states += r["distinct"]
+    # the model is not vacuous: each deviation (a panic that looks like the end of the stream; a panic report
+    # that is dropped when the channel is full) is rejected
+    for dev in ('{"PanicLooksLikeEof"}', '{"PanicTrySend"}'):
+        r = pipeline(1, 4, "panic", dev)
+        if r["ok"] or "OkIsComplete is violated" not in r["out"]:
+            raise ToolError(f"Pipeline.tla with Dev = {dev} is not rejected: the model is vacuous")
     # ---- fault enumeration on the real operator pipelines
     cases = []
     for i, (setup, sql) in enumerate(workload(seed, big)):
         for eng in ("mem", "disk"):
             cases.append({"id": f"{i}.{eng}", "engine": eng, "opts": {"block": 4096}, "setup": setup, "sql": sql,
-                          "tables": ["t", "s"], "max_points": 80 if big else 16})
+                          "tables": ["t", "s"], "max_points": 80 if big else (28 if setup[0].startswith("create table m") else 16)})
     outs = run_sharded("fault", cases, tag="c15", timeout=3300, case_timeout=600)
     runs, fired, nontriv = 0, 0, set()
 
